@@ -237,7 +237,20 @@ class Ctx:
         """cases: list of (coq_input_text, expected_val_python). Returns list of (index, model_output_text)."""
         if not cases:
             return []
-        shards = [cases[i:i + shard] for i in range(0, len(cases), shard)]
+        # shards are bounded by case count AND by text size (a multi-megabyte literal costs minutes and gigabytes in coqc): every case is
+        # rendered once, then packed greedily; `bases` remembers the index of the first case of each shard
+        rendered = [f"  ({ci}, {cval(ev)})" for ci, ev in cases]
+        shards, bases, cur, size = [], [], [], 0
+        for idx, txt in enumerate(rendered):
+            if cur and (len(cur) >= shard or size + len(txt) > 700_000):
+                shards.append(cur)
+                cur, size = [], 0
+            if not cur:
+                bases.append(idx)
+            cur.append(txt)
+            size += len(txt)
+        if cur:
+            shards.append(cur)
         jobs = []
         for k, sh in enumerate(shards):
             name = f"{tag}_{k}"
@@ -245,7 +258,7 @@ class Ctx:
             with open(path, 'w') as f:
                 f.write(f"From ZC Require Import {imports}.\nOpen Scope Z_scope.\n{preamble}\n")
                 f.write(f"Definition cases : list (({input_type}) * val) := [\n")
-                f.write(";\n".join(f"  ({ci}, {cval(ev)})" for ci, ev in sh))
+                f.write(";\n".join(sh))
                 f.write("\n].\n")
                 f.write(f"Eval vm_compute in ({mismatch_fn} {run_fn} 0 cases).\n")
             jobs.append((k, name, path, len(sh)))
@@ -259,7 +272,7 @@ class Ctx:
         bad = []
         with concurrent.futures.ThreadPoolExecutor(max_workers=NPROC) as ex:
             for k, rc, out, err in ex.map(one, jobs):
-                base = k * shard
+                base = bases[k]
                 if rc != 0:
                     raise RuntimeError(f"coqc failed on case shard {k}: {err[-1500:]}")
                 body = out.strip()
